@@ -38,11 +38,12 @@ E(kind, layouts, f, t, wide) == [k |-> kind, L |-> layouts, F |-> f, T |-> t, wi
 
 (* ------------------------------- C01 ----------------------------------- *)
 PlanC01Quick ==
-  [sample |-> E("sample", {L1data, L2mixed, L4mixed},                         1, {}, FALSE),
-   row    |-> E("row",    {L1data, L1empty, L2mixed, L2sym, L2gap, L4mixed},  1, {}, FALSE),
+  [sample |-> E("sample", {L1data, L2mixed, L2sym, L4mixed},                  1, {}, FALSE),
+   row    |-> E("row",    {L1empty, L2gap, L4mixed},                          1, {}, FALSE),
+   row2   |-> E("row",    {L1data, L2mixed, L2sym},                           2, {}, FALSE),
    rnd    |-> E("rnd",    {L2mixed, L2gap, L4mixed},                          1, {}, FALSE),
-   range2 |-> E("range",  {L2one},                                            2, RangeT, FALSE),
-   range1 |-> E("range",  {L2mixed, L1data},                                  1, {}, FALSE),
+   range2 |-> E("range",  {L2one, L2mixed},                                   2, RangeT, FALSE),
+   range1 |-> E("range",  {L2gap, L1data},                                    1, {}, FALSE),
    range4 |-> E("range",  {L4one},                                            1, {}, FALSE)]
 
 Hand2 == {L2mixed, L2one, L2sym, L2gap, L2tx}
@@ -66,8 +67,9 @@ PlanRangeRegress ==
 (* ------------------------------- C02 ----------------------------------- *)
 NdT == {"rm", "move", "entry", "add"}
 PlanC02Quick ==
-  [nd     |-> E("nd",     {L1data, L2mixed, L2gap, L2one, L2tx, L4mixed, L4gaps}, 1, {}, FALSE),
-   rnd    |-> E("rnd",    {L2mixed, L2gap, L4gaps},                           1, {}, FALSE)]
+  [nd     |-> E("nd",     {L1data, L2one, L2tx, L4mixed, L4gaps},             1, {}, FALSE),
+   nd2    |-> E("nd",     {L2mixed, L2gap},                                   2, NdT, FALSE),
+   rnd    |-> E("rnd",    {L2mixed, L2gap, L4gaps, L4mixed},                  1, {}, FALSE)]
 
 PlanC02Thorough ==
   [nd2    |-> E("nd",     All1 \cup All2,                                     1, {}, TRUE),
